@@ -54,6 +54,11 @@ LEVEL_TEXT += (
     "reference-domain class); (R2) no library operation returns a mesh "
     "built with a literal sort_t=False unless that is what the operation "
     "is for (MeshSimplex.oriented).")
+LEVEL_TEXT += (
+    " Added in the hunting round (defects found by independent agents "
+    "on the unchanged tree, DESIGN.md 9.4 / 9.6): "
+    "every triangle mesh class (not only MeshTri1) must sort its cells "
+    "by default - two open findings.")
 LEVEL_NOTE = ("Trusted: the covariant / contravariant Piola maps of C09-R5 "
               "and the shared numbering of C04. The H(curl) sign is not "
               "hard-coded: orient() is interpreted for every ranking.")
